@@ -53,6 +53,7 @@ type Loaded struct {
 	visCache               map[*ssa.Function][]string
 	overlayFiles           []string
 	srcFiles               map[string]bool
+	dropped                map[string][]string // harness file -> harness names declared in it (file no longer compiles)
 }
 
 // commonApplies: a shared file names the packages it belongs to in a line "//verif:for a b c".
@@ -123,34 +124,72 @@ func LoadPackage(repo, harnessRoot, relPkg string) (*Loaded, error) {
 	overlay[rtPath] = []byte(rt)
 	ofiles = append(ofiles, rtPath)
 
-	cfg := &packages.Config{
-		Mode: packages.NeedName | packages.NeedFiles | packages.NeedCompiledGoFiles | packages.NeedImports |
-			packages.NeedDeps | packages.NeedTypes | packages.NeedSyntax | packages.NeedTypesInfo | packages.NeedTypesSizes | packages.NeedModule,
-		Dir:     repo,
-		Overlay: overlay,
-		Env:     append(os.Environ(), "GOFLAGS=-mod=mod", "GOPROXY=off"),
-	}
-	pkgs, err := packages.Load(cfg, "./"+relPkg)
-	if err != nil {
-		return nil, err
-	}
-	nerr := 0
-	packages.Visit(pkgs, nil, func(p *packages.Package) {
-		for _, e := range p.Errors {
-			if nerr < 20 {
-				fmt.Fprintf(os.Stderr, "load error: %s: %v\n", p.PkgPath, e)
-			}
-			nerr++
+	// A change to the tree can break the compilation of a harness file (a callee changed its signature). Such files -
+	// and the files that depend on them - are left out, their harnesses reported INCONCLUSIVE, and the rest still runs.
+	dropped := map[string][]string{}
+	hfuncRe := regexp.MustCompile(`(?m)^func (VH_\w+)\(\)`)
+	var pkgs []*packages.Package
+	for attempt := 0; ; attempt++ {
+		cfg := &packages.Config{
+			Mode: packages.NeedName | packages.NeedFiles | packages.NeedCompiledGoFiles | packages.NeedImports |
+				packages.NeedDeps | packages.NeedTypes | packages.NeedSyntax | packages.NeedTypesInfo | packages.NeedTypesSizes | packages.NeedModule,
+			Dir:     repo,
+			Overlay: overlay,
+			Env:     append(os.Environ(), "GOFLAGS=-mod=mod", "GOPROXY=off"),
 		}
-	})
-	if nerr > 0 {
-		return nil, fmt.Errorf("%d package load errors (harness does not compile against the current tree?)", nerr)
+		var err error
+		pkgs, err = packages.Load(cfg, "./"+relPkg)
+		if err != nil {
+			return nil, err
+		}
+		nerr := 0
+		bad := map[string]bool{}
+		foreign := false
+		packages.Visit(pkgs, nil, func(p *packages.Package) {
+			for _, e := range p.Errors {
+				if nerr < 20 {
+					fmt.Fprintf(os.Stderr, "load error: %s: %v\n", p.PkgPath, e)
+				}
+				nerr++
+				file := e.Pos
+				if i := strings.Index(file, ".go:"); i >= 0 {
+					file = file[:i+3]
+				}
+				if _, ok := overlay[file]; ok && file != rtPath && strings.Contains(filepath.Base(file), "zz_verif_") && !strings.Contains(filepath.Base(file), "zz_verif_common_") {
+					bad[file] = true
+				} else {
+					foreign = true
+				}
+			}
+		})
+		if nerr == 0 {
+			break
+		}
+		if foreign || len(bad) == 0 || attempt >= 8 {
+			return nil, fmt.Errorf("%d package load errors (harness does not compile against the current tree?)", nerr)
+		}
+		for f := range bad {
+			name := strings.TrimPrefix(filepath.Base(f), "zz_verif_")
+			var hs []string
+			for _, m := range hfuncRe.FindAllSubmatch(overlay[f], -1) {
+				hs = append(hs, string(m[1]))
+			}
+			dropped[name] = hs
+			fmt.Fprintf(os.Stderr, "harness file %s no longer compiles against this tree: left out (%d harnesses)\n", name, len(hs))
+			delete(overlay, f)
+			for i, o := range ofiles {
+				if o == f {
+					ofiles = append(ofiles[:i], ofiles[i+1:]...)
+					break
+				}
+			}
+		}
 	}
 	prog, spkgs := ssautil.AllPackages(pkgs, ssa.InstantiateGenerics)
 	prog.Build()
 	ld := &Loaded{prog: prog, pkg: spkgs[0], pkgPath: pkgs[0].PkgPath, fset: pkgs[0].Fset,
 		repl: map[string][]*replacement{}, replCache: map[*ssa.Function][]*replacement{}, skipInit: map[string]bool{}, overlayFiles: ofiles,
-		srcFiles: map[string]bool{}}
+		srcFiles: map[string]bool{}, dropped: dropped}
 	if ld.pkg == nil {
 		return nil, fmt.Errorf("no ssa package for %s", relPkg)
 	}
